@@ -7,3 +7,5 @@ func verifFsEvent(kind string, a string, b string) {}
 func verifSched(label string) {}
 
 func verifMergeFile(id uint32) {}
+
+func verifBatch(id uint64) {}
